@@ -26,6 +26,7 @@ func init() {
 			"(handler-lookup) every client-facing DMap handler resolves the DMap with getOrCreateDMap (a member without a local handle still forwards to the owners); " +
 			"(unit-agreement, client-targets-owner) shared with C09 / C07.",
 		Run: func(r *core.Run) {
+			c15ParserConsumesAllArguments(r)
 			optionGroups(r)
 			optionsCompose(r)
 			putDoesNotRetain(r)
